@@ -57,7 +57,7 @@ func c17Oracle(sp *Spec, x *X, res *mcrt.Result) (string, string) {
 			return "successor-never-displayed", fmt.Sprintf("bar %d (queued after %d) does not appear in any of the %d frames", s, p, len(frames))
 		}
 		// takes the predecessor's place in the frame right after the predecessor's last one
-		if lastP >= 0 && lastP+1 < len(frames) && sRet < frames[lastP].Step && x.Events["queue:late-successor"] == 0 && x.Events["queue:two-successors"] == 0 && !sp.Pop {
+		if lastP >= 0 && lastP+1 < len(frames) && sRet < frames[lastP].Step && x.EventCount("queue:late-successor") == 0 && x.EventCount("queue:two-successors") == 0 && !sp.Pop {
 			// (in pop mode finished bars rise to the top, so indices of unrelated bars shift: C18's subject)
 			prev, next := frames[lastP].BarIDs(), frames[lastP+1].BarIDs()
 			if indexOf(next, s) != indexOf(prev, p) {
